@@ -19,7 +19,7 @@ Prog == [decls |-> Decls, tx |-> WithSlot(slot, expr)]
 \* the oracle is defined: a transaction or a stated error, never "unspecified"
 \* (a witness block whose version is not a Plutus language, e.g. Mixed = 0, is the one corner these universes reach
 \* that the denotation leaves open: the code ignores such a block, the property does not say)
-OracleDefined == DenoteTx(Prog, EnvOf(envId)).k \in (IF slot \in {"witness", "two_witnesses", "publish", "b_out_amount"} THEN {"tx", "error", "unspec"} ELSE {"tx", "error"})
+OracleDefined == DenoteTx(Prog, EnvOf(envId)).k \in (IF slot \in {"witness", "two_witnesses", "publish", "b_out_amount", "b_optional_out"} THEN {"tx", "error", "unspec"} ELSE {"tx", "error"})
 \* the transaction every slot starts from (for composing programs in which two slots are varied together)
 ASSUME PrintT(<<"INFO", ToJson([base |-> BaseTx])>>)
 EmitCase == PrintT(<<"CASE", ToJson([prog |-> Prog, env |-> EnvOf(envId), slot |-> slot, envId |-> envId,
